@@ -1,7 +1,112 @@
 import CB.Driver.Util
+import CB.Model.Panic
 namespace CB
+open CB.Panic
 
-/-- operations of property C11 (op names start with `c11.`) -/
-def dispatchC11 : Dispatch := fun _ _ => none
+/-!
+  Driver of property C11.  Every `c11.*` line prints `L1 ;; L0`:
+    `L1` = outcome of the checked twin(s) of `CB.Model.Panic` that mirror the code path of the call:
+           `panic`, `ok`, or the value the twin returns (compared exactly with the crate when present);
+           `<release> ## <dbgchk>` where a debug assertion / overflow check makes the builds differ;
+    `L0` = what the DOCUMENTATION says (`CB.Panic.panics`): `panic` or `ok`.
+  A method for which no twin exists prints `L0` alone.
+  tools/check_c11.py compares the panic class of the real crate (two build profiles) with `L0`.
+-/
+
+private def cls {α : Type} (r : Chk α) : String := if isPanic r then "panic" else "ok"
+
+/-- `L1` over the two profiles, from a profile-indexed twin and a printer of the `.ok` value -/
+private def two {α : Type} (f : Profile → Chk α) (pr : α → String) : String :=
+  let s := fun (r : Chk α) => match r with
+    | .ok v => pr v
+    | .error _ => "panic"
+  let a := s (f release)
+  let b := s (f dbgchk)
+  if a = b then a else s!"{a} ## {b}"
+
+private def doc (o : Op) : String := if panics o then "panic" else "ok"
+
+private def okS {α : Type} : α → String := fun _ => "ok"
+
+/-- twins of the methods of a ZERO-LIMB `BoxedUint` (`limbs = []`) that have one -/
+private def b0Twin (method : String) : Option String :=
+  match method with
+  | "bits_vartime" => some (two (fun p => bitsVartimeD p []) okS)
+  | "overflowing_shl" | "overflowing_shr" | "wrapping_shl" | "wrapping_shr" =>
+    some (two (fun p => boxedShiftPrologueD p 0 0) okS)
+  -- `sqrt` starts with `one_with_precision(..).overflowing_shl(..)` on the operand's precision
+  | "sqrt" | "sqrt_vartime" | "checked_sqrt" => some (two (fun p => boxedShiftPrologueD p 0 0) okS)
+  -- `gcd` starts with `self.overflowing_shr(k)`
+  | "gcd_self" | "gcd_one" => some (two (fun p => boxedShiftPrologueD p 0 0) okS)
+  | "shorten" => some (two (fun _ => shortenD 0 0) okS)
+  | "square" => some (two (fun p => squareTopIndexD p 0) okS)
+  | "checked_div_self" => some (two (fun p => boxedCheckedDivD p 0 0) okS)
+  | "one_checked_div" => some (two (fun p => boxedCheckedDivD p 1 0) okS)
+  | "to_string_radix_10" | "to_string_radix_16" => some (two (fun p => radixEncodeNonEmptyD p 0) okS)
+  | _ => none
+
+def dispatchC11 : Dispatch := fun op args =>
+  match op, args with
+  -- ---- inversion ------------------------------------------------------------------------------
+  | "c11.u.inv_mod", [n, a, m] =>
+    match n.toNat?, hexToNat? a, hexToNat? m with
+    | some n, some a, some m => some s!"{cls (invModD (64 * n) a m)} ;; {doc (.uintInvMod (64 * n) m)}"
+    | _, _, _ => badArgs
+  | "c11.u.inv_mod2k", [n, _, k] =>
+    match n.toNat?, k.toNat? with
+    | some n, some k => some s!"ok ;; {doc (.uintInvMod2k (64 * n) k)}"
+    | _, _ => badArgs
+  | "c11.u.inv_mod2k_vartime", [n, a, k] =>
+    match n.toNat?, hexToNat? a, k.toNat? with
+    | some n, some a, some k =>
+      -- the loop runs `k` rounds and panics in round `64 n`: decide the class without running 2^32 rounds
+      let kk := if k > 64 * n then 64 * n + 1 else k
+      some s!"{cls (invMod2kVartimeD (64 * n) a kk)} ;; {doc (.uintInvMod2k (64 * n) k)}"
+    | _, _, _ => badArgs
+  | "c11.b.inv_mod", [na, _, nm, _] =>
+    match na.toNat?, nm.toNat? with
+    | some na, some nm =>
+      some s!"{two (fun p => boxedInvModPrecisionD p na nm) okS} ;; {doc (.boxedInvMod na nm)}"
+    | _, _ => badArgs
+  | "c11.b.inv_mod2k", [_, _, _] => some "ok ;; ok"
+  | "c11.b.inv_mod2k_vartime", [_, _, _] => some "ok ;; ok"
+  -- ---- zero-limb boxed values -------------------------------------------------------------------
+  | "c11.b0", [_, method] =>
+    match b0Twin method with
+    | some t => some s!"{t} ;; {doc (.boxedMethod 0)}"
+    | none => some (doc (.boxedMethod 0))
+  | "c11.b.odd_new0", [_] => some (doc (.boxedMethod 0))
+  -- ---- decoders / constructors ----------------------------------------------------------------
+  | "c11.b.from_be_hex", [s, prec] =>
+    match tokToBytes? s, prec.toNat? with
+    | some bs, some pr => some s!"{cls (boxedFromBeHexLenD bs.length pr)} ;; {doc (.boxedFromBeHex bs.length pr)}"
+    | _, _ => badArgs
+  | "c11.b.ctor0", [name] =>
+    if name = "widen0" then some s!"{cls (widenD 64 0)} ;; {doc (.boxedWiden 64 0)}"
+    else if name = "shorten0" then some s!"{cls (shortenD 1 0)} ;; {doc (.boxedShorten 64 0)}"
+    else some "ok"
+  | "c11.b.try_random_bits", [_, _] => some "ok"
+  -- ---- total shift forms, Int extremes -----------------------------------------------------------
+  | "c11.u.shift_all", [n, _, s] =>
+    match n.toNat?, s.toNat? with
+    | some n, some s => some (doc (.uintShiftTotal (64 * n) s))
+    | _, _ => badArgs
+  | "c11.i.extreme", [_, _, _] => some "ok"
+  -- ---- twins with values: tie the checked twins to the code through the public API ---------------
+  | "c11.u.div_rem_limb", [n, a, d] =>
+    match n.toNat?, hexToNat? a, hexToNat? d with
+    | some n, some a, some d =>
+      if d = 0 ∨ d ≥ B then badArgs else
+      some (two (fun p => divRemLimbWithReciprocalD p (toLimbs n a) (Div.Reciprocal.new d))
+        (fun r => s!"{limbsHex r.1} {natToHex r.2}"))
+    | _, _, _ => badArgs
+  | "c11.u.mul_mod_special", [n, a, b, c] =>
+    match n.toNat?, hexToNat? a, hexToNat? b, hexToNat? c with
+    | some n, some a, some b, some c =>
+      if n < 2 then badArgs else
+      let prod := a * b
+      some (two (fun p => specialReduceD p (toLimbs n prod) (toLimbs n (prod / B ^ n)) c) limbsHex)
+    | _, _, _, _ => badArgs
+  | _, _ => none
 
 end CB
